@@ -20,9 +20,10 @@
 -/
 import NemoVerif.Lemmas.SlideGraph
 import NemoVerif.Lemmas.ErrContain
+import NemoVerif.Lemmas.RoundMachine
 
 namespace NemoVerif.C10
-open NemoVerif.SlideGraph NemoVerif.ErrContain
+open NemoVerif.SlideGraph NemoVerif.ErrContain NemoVerif.RoundMachine
 
 /-! ## Termination of `slide` -/
 
@@ -305,5 +306,88 @@ example : (scanLookup false siblingState siblingCands).map (·.2.matching) =
 example : matchPhaseAsIs [{ fuid := 1, huid := 1, score := .pos 0 }, { fuid := 2, huid := 2, score := .err }] = none := by decide
 example : (matchPhaseRepaired [{ fuid := 1, huid := 1, score := .pos 0 }, { fuid := 2, huid := 2, score := .err }]).matching
     = [{ fuid := 1, huid := 1, score := .pos 0 }] := by decide
+
+
+/-! ## T2 — whole-round termination on the token abstraction (`Models/RoundMachine.lean`)
+
+  The abstraction is tied to the real interpreter on every run: each recorded real processing round (internal events
+  popped, slide iterations, resumes, flow ends, with the events they push) is replayed as a run of this machine
+  (harness/props/C10.py `round_*`, driver op `C10.round`), and the measured number of steps is compared with `roundBound`. -/
+
+/-- **`round_step_decreases`**: with a verified potential every step of the machine — popping an internal event of any kind,
+    a slide iteration, a resume behind an internally servable wait, a fork, the end / abort of a flow with its terminal events
+    and restart — lowers the total potential by at least one. -/
+theorem round_step_decreases (P : RProg) (p : Pot) (hk : potOk P p = true) (T T' : List Token) (hs : Step P T T') :
+    sumPot P p T' < sumPot P p T := by
+  have := step_decreases hk hs; omega
+
+/-- **T2 `run_terminates`**: for a program accepted by the verified check, EVERY run of the machine from the token multiset
+    `T` of a state has at most `B(program, state) = roundBound P p T` steps — fuel `B` never runs out. -/
+theorem run_terminates (P : RProg) (p : Pot) (hk : potOk P p = true) (T T' : List Token) (k : Nat) (hr : Run P k T T') :
+    k ≤ roundBound P p T := by
+  have := run_bound hk hr; unfold roundBound; omega
+
+/-- … in particular for the potential the search finds when `roundRanked P` holds -/
+theorem run_terminates_checked (P : RProg) (hk : roundRanked P = true) (T T' : List Token) (k : Nat) (hr : Run P k T T') :
+    k ≤ roundBound P (buildPot P) T :=
+  run_terminates P (buildPot P) hk T T' k hr
+
+/-- there is no infinite run -/
+theorem no_infinite_run (P : RProg) (p : Pot) (hk : potOk P p = true) (seq : Nat → List Token)
+    (hs : ∀ i, Step P (seq i) (seq (i + 1))) : False := by
+  have key : ∀ i, i + sumPot P p (seq i) ≤ sumPot P p (seq 0) := by
+    intro i
+    induction i with
+    | zero => omega
+    | succ n ih => have := step_decreases hk (hs n); omega
+  have := key (sumPot P p (seq 0) + 1)
+  omega
+
+/-- "no cycle of flows that start / await / activate each other — or restart themselves — before a statement that waits
+    for an external event": starting flow `g` can never lead (through any number of machine steps) to another StartFlow of `g`. -/
+def StartAcyclic (P : RProg) : Prop := ∀ g, ¬ ProducesPlus P (.ev (.start g)) (.ev (.start g))
+
+/-- the verified check establishes `StartAcyclic` (and, more generally, that no token ever reproduces itself: this also
+    covers cycles of sliding elements and cycles through internally served waits) -/
+theorem potOk_startAcyclic (P : RProg) (p : Pot) (hk : potOk P p = true) : StartAcyclic P := by
+  intro g h
+  have := producesPlus_pot hk h
+  omega
+
+theorem no_token_reproduces_itself (P : RProg) (p : Pot) (hk : potOk P p = true) (tok : Token) : ¬ ProducesPlus P tok tok := by
+  intro h
+  have := producesPlus_pot hk h
+  omega
+
+/-- The boundary case: `@active flow a: await b`, `flow b: $x = 1`.  The body of the activated flow is served by internal
+    events only (b starts and finishes in the same round), `a` becomes STARTED at `match b.Finished()`, finishes, restarts, … -/
+def boundaryProg : RProg :=
+  [ { ctl := [.wait false, .step true, .wait false, .wait false],
+      emit := [[], [.start 1], [], []], wk := [.ext, .ext, .intTagged, .int], restartable := true },
+    { ctl := [.wait false, .step true], emit := [[], []], wk := [.ext, .ext], restartable := false } ]
+
+/-- it violates `StartAcyclic` (explicit chain: StartFlow a → head behind its start match → `send StartFlow(b)` → resume behind
+    the tagged FlowStarted match → resume behind `match b.Finished()` in mode STARTED → end of the flow with restart) … -/
+theorem boundary_violates_startAcyclic : ¬ StartAcyclic boundaryProg := by
+  intro h
+  apply h 0
+  refine .more (b := .head 0 1 false) ⟨[.head 0 1 false], by decide, by decide⟩ ?_
+  refine .more (b := .head 0 2 false) ⟨[.ev (.start 1), .head 0 2 false], by decide, by decide⟩ ?_
+  refine .more (b := .head 0 3 false) ⟨[.head 0 3 false], by decide, by decide⟩ ?_
+  refine .more (b := .head 0 4 true) ⟨[.head 0 4 true], by decide, by decide⟩ ?_
+  exact .one ⟨[.ev (.start 0)], by decide, by decide⟩
+
+/-- … so NO potential passes the verified check: the checker must reject it (whatever the search does) -/
+theorem boundary_rejected (p : Pot) : potOk boundaryProg p = false := by
+  cases h : potOk boundaryProg p with
+  | false => rfl
+  | true => exact absurd (potOk_startAcyclic boundaryProg p h) boundary_violates_startAcyclic
+
+/-- non-vacuity: the same flow with a statement that waits for an external event first is accepted, with an explicit bound -/
+def guardedProg : RProg :=
+  [ { ctl := [.wait false, .wait false, .step true, .wait false, .wait false],
+      emit := [[], [], [.start 1], [], []], wk := [.ext, .ext, .ext, .intTagged, .int], restartable := true },
+    { ctl := [.wait false, .step true], emit := [[], []], wk := [.ext, .ext], restartable := false } ]
+example : roundRanked guardedProg = true := by decide +kernel
 
 end NemoVerif.C10
